@@ -8,3 +8,4 @@ import Dm.Props.C05
 #print axioms Dm.Props.C05.inert
 #print axioms Dm.Props.C05.attr_body_cases
 #print axioms Dm.Props.C05.no_attr_single_field
+#print axioms Dm.Props.C05.argument_expression_is_referenced
